@@ -15,7 +15,7 @@ import (
 func init() {
 	register(&Prop{
 		ID:   "C11",
-		Rule: "contents over {a,b,LF,CR,2-/3-/4-byte characters} with random operation histories (read, unread, unread-many, peek, reset), long contents (2B+12 characters for B = 64, 256, 1024, thorough also 4096) with every line-break style placed across the multiples of B and the cursor moved back and forth over them, plus exhaustive contents<=4 over {x,LF,CR} x op sequences<=5 (thorough); non-trivial = contains a line break and at least one unread after a read; distinct by input hash",
+		Rule: "contents over {a,b,LF,CR,2-/3-/4-byte characters, U+2028, U+2029, U+0085, VT, FF} with random operation histories (read, unread, unread-many, peek, reset), long contents (2B+12 characters for B = 64, 256, 1024, thorough also 4096) with every line-break style placed across the multiples of B and the cursor moved back and forth over them, plus exhaustive contents<=4 over {x,LF,CR} x op sequences<=5 (thorough); non-trivial = contains a line break and at least one unread after a read; distinct by input hash",
 		Gen:  genC11,
 		Run:  runC11,
 		Human: func(in sx.SX) string {
@@ -67,7 +67,7 @@ func c11Nontrivial(content []rune, ops []sx.SX) bool {
 }
 
 func genC11(ctx *Ctx) {
-	alpha := []rune{'a', '\n', '\r', 'é', '日', '😀', 'b', '\n', '\r'}
+	alpha := []rune{'a', '\n', '\r', 'é', '日', '😀', 'b', '\n', '\r', 0x2028, 0x2029, 0x85, '\v', '\f', '\n', '\r'} // only LF and CR break lines: the other separators of Unicode are ordinary characters
 	if ctx.Thorough {
 		// exhaustive small scope: contents <= 4 over {x, LF, CR} x op sequences <= 5 over {read, unread, unread-many 2, peek, reset}
 		small := []rune{'x', '\n', '\r'}
